@@ -377,7 +377,7 @@ def integrity(ctx, rels):
 DEPENDS = {
     'C01': ['C09', 'C07', 'C08'], 'C02': ['C07', 'C08', 'C16'], 'C03': ['C02', 'C08', 'C07', 'C16'], 'C04': ['C07', 'C08'],
     'C05': ['C09', 'C07', 'C08'], 'C06': ['C16', 'C07', 'C08'], 'C07': ['C08'], 'C08': ['C07'], 'C09': ['C07', 'C08'],
-    'C10': [], 'C11': ['C09', 'C16', 'C01'], 'C12': ['C02', 'C07', 'C08'], 'C13': ['C01', 'C11'],
+    'C10': ['C01', 'C02', 'C04', 'C05', 'C06', 'C11', 'C12', 'C13', 'C17', 'C19'], 'C11': ['C09', 'C16', 'C01'], 'C12': ['C02', 'C07', 'C08'], 'C13': ['C01', 'C11'],
     'C14': ['C09', 'C01', 'C11'], 'C15': ['C07', 'C08'], 'C16': ['C07', 'C08'], 'C17': ['C16', 'C09'],
     'C18': ['C02', 'C16'], 'C19': ['C07', 'C08'], 'C20': [],
 }
